@@ -1,6 +1,9 @@
 // C13 (2) hostile bytes against the real front ends (engine I): real Telnetd / TcpRpc, listening on a unix stream
 // socket, real epoll loop, a fresh client connection per case; cases run inside a crash-contained persistent child
-// (c13::Worker, one case at a time, so the input that kills the child is identified exactly).
+// (c13::Worker). One job = one byte string in all its segmentations; when a job kills the child its deliveries are
+// re-run one by one in fresh children, so the input that kills the process is identified exactly.
+// Oracles: the child survives (no signal / ASan / UBSan / uncaught exception / hang), the session answers a probe
+// command afterwards, and what the framing layer hands to the shell does not depend on the segmentation.
 //   mode sock   : bytes are written to the client socket, the loop delivers them (BufferedFd -> TcpServer -> service)
 //   mode direct : each segment is handed to the service's onTcpReceived() in a Buffer whose capacity is exactly
 //                 (unconsumed remainder + segment), so any read past the received bytes is an ASan report
